@@ -97,7 +97,8 @@ type c03V struct {
 	Lit    *ast.FuncLit // KFunc
 	Env    *c03Frame    // KFunc: the frame the literal was evaluated in
 	Site   ast.Node
-	Born   int // number of events on the path when the value / object was created (freshness within a loop iteration)
+	Shared types.Object // the package-level variable the value was read from (storage that outlives the call)
+	Born   int          // number of events on the path when the value / object was created (freshness within a loop iteration)
 }
 
 func (v *c03V) String() string {
